@@ -164,7 +164,10 @@ def run_case(ctx, case):
     as_rdms = bool(rng.integers(2))
     a = RDMs(v1.copy()) if as_rdms else v1.copy()
     b = RDMs(v2.copy()) if as_rdms else v2.copy()
-    kw = {'sigma_k': None if sigma is None else sigma.copy()} if m in ('cosine_cov', 'corr_cov') else {}
+    # half of the covariance arguments arrive in a preallocated buffer that is overwritten from case to case (same
+    # object, new values), the other half as fresh arrays
+    kw = {'sigma_k': None if sigma is None else (gen.reused_buffer(sigma) if rng.integers(2) else sigma.copy())} \
+        if m in ('cosine_cov', 'corr_cov') else {}
     wit = lambda **x: dict(measure=m, v1=v1, v2=v2, sigma_k=sigma, n_cond=n, **x)  # noqa: E731
     ok, got = ctx.guarded('definition:' + m, sig, compare, a, b, method=m, data=wit, **kw)
     if not ok:
